@@ -43,10 +43,16 @@ def shrink(mod, failure: Failure, budget_s: float) -> Failure:
     while improved and time.time() < t_end:
         improved = False
         try:
-            it = cands(best.case)
+            it = iter(cands(best.case))
         except Exception:
             break
-        for cand in it:
+        while True:
+            try:
+                cand = next(it)
+            except StopIteration:
+                break
+            except Exception:  # a candidate generator that trips over an unusual case shape ends the shrink, not the run
+                break
             if time.time() > t_end:
                 break
             try:
@@ -72,6 +78,13 @@ def write_replay(prop: str, failure: Failure) -> str:
 
 
 def main(argv=None) -> int:
+    try:  # kill -USR1 <pid> prints every thread's Python stack (diagnosing a stuck run); inherited by forked workers
+        import faulthandler
+        import signal
+
+        faulthandler.register(signal.SIGUSR1, all_threads=True)
+    except Exception:
+        pass
     ap = argparse.ArgumentParser()
     ap.add_argument("prop")
     ap.add_argument("--tier", choices=["quick", "thorough"], default=None)
@@ -222,4 +235,14 @@ def main(argv=None) -> int:
 
 
 if __name__ == "__main__":
-    sys.exit(main())
+    try:
+        _rc = main()
+    except SystemExit:
+        raise
+    except BaseException:  # harness failure: never exit 1 (that code is reserved for a reported VIOLATION)
+        import traceback
+
+        traceback.print_exc()
+        print("HARNESS-ERROR uncaught exception in the runner")
+        _rc = 2
+    sys.exit(_rc)
